@@ -21,6 +21,7 @@ def run(rep, W, ctx):
     S.s_txn3(rep, W, W.op("add_snapshot"))
     S.s_txn3(rep, W, h)
     S.s_newclient(rep, W)
+    S.s_failstop_all(rep, W)          # a failed storage step is never retried / patched up inside the transaction
     S.c03_nostate(rep, W)
     S.c03_loop(rep, W)
     S.s_wmc(rep, W)
